@@ -96,10 +96,11 @@ def run(sc, workdir):
     pd_names = sorted([p.name for p in p_info.parameters.call_parameters if p.polydisperse and p.type not in ("orientation", "magnetic")] if dim == "1d" else
                       [p.name for p in p_info.parameters.call_parameters if p.polydisperse and p.type != "orientation"])
     rng.shuffle(pd_names)
-    for name in pd_names[:rng.choice([0, 1, 2])]:
-        if name == "volfraction":
-            continue
-        d = {name + "_pd": rng.choice([0.125, 0.25]), name + "_pd_n": rng.choice([3, 8]),
+    big = sc.get("bigmesh")      # meshes beyond the 100-point slice in which the compiled kernel is re-entered
+    chosen = [nm for nm in pd_names if nm != "volfraction"][:(rng.choice([1, 2]) if big else rng.choice([0, 1, 2]))]
+    bign = [rng.choice([104, 120])] if len(chosen) == 1 else [13, 11]
+    for k, name in enumerate(chosen):
+        d = {name + "_pd": rng.choice([0.125, 0.25]), name + "_pd_n": (bign[k] if big else rng.choice([3, 8])),
              name + "_pd_type": rng.choice(["gaussian", "rectangle"])}
         pars.update(d)
         p_pars.update(d)
@@ -130,6 +131,7 @@ def run(sc, workdir):
           "names": [p.id for p in ps_info.parameters.call_parameters],
           "scale": fstr(pars["scale"]), "background": fstr(pars["background"]), "vf": fstr(vf),
           "beta": beta, "ermode": ermode, "userReff": fstr(user_reff), "pars": pars,
+          "p_pars": {k: v for k, v in p_pars.items()},
           "refused": False, "error": ""}
     # ---- P alone
     fq = dict(p_pars, scale=1.0, background=0.0, radius_effective_mode=ermode)
